@@ -30,9 +30,13 @@ class Ctr(dict):
         return 0
 
 
+def gen_call_lattice(rng):
+    return fragment.call_lattice(rng)
+
+
 def plan(tier, seed, scale=1.0):
     nb = 32
-    per = max(1, int((2 if tier == "quick" else 24) * scale))
+    per = max(2, int((4 if tier == "quick" else 40) * scale))
     return [{"batch": b, "n": per, "seed": seed, "tier": tier} for b in range(nb)]
 
 
@@ -46,6 +50,21 @@ def sub_dump(src, hashseed, shuffle=None):
         if line.startswith("DUMP "):
             return json.loads(line[5:])
     return {"error": "no dump: " + p.stderr[-300:]}
+
+
+def sub_dump_many(srcs, hashseed, reverse=False):
+    """One fresh process (given PYTHONHASHSEED) analysing the sources in the given order."""
+    env = dict(os.environ)
+    env["PYTHONHASHSEED"] = str(hashseed)
+    env["PYTHONDONTWRITEBYTECODE"] = "1"
+    order = list(reversed(srcs)) if reverse else list(srcs)
+    p = subprocess.run([common.PY, "-m", "vt.mon.dump"], input=json.dumps({"srcs": order, "shuffle": None}),
+                       capture_output=True, text=True, timeout=900, env=env, cwd=common.VERIF_ROOT)
+    for line in reversed(p.stdout.splitlines()):
+        if line.startswith("DUMP "):
+            res = json.loads(line[5:])
+            return list(reversed(res)) if reverse else res
+    return [{"error": "no dump: " + p.stderr[-300:]} for _ in srcs]
 
 
 def diff(a, b):
@@ -72,24 +91,43 @@ def diff(a, b):
     return "dumps differ"
 
 
-def one_program(src, others, rng, ctr, viols, tier):
-    seeds = list(range(0, 4)) if tier == "quick" else list(range(0, 32))
-    base = sub_dump(src, 0)
+def one_program(src, others, rng, ctr, viols, tier, base=None, seed_dumps=None):
+    """base: dump of src from a fresh process (PYTHONHASHSEED=0, analysed first);
+    seed_dumps: {hashseed: dump of src in a fresh process with that seed (other programs analysed before/after it)}."""
+    if base is None:
+        base = sub_dump(src, 0)
     if "error" in base:
         ctr["baseline_error"] += 1
         return False
-    for hs in seeds[1:]:
+    for hs, dmp in sorted((seed_dumps or {}).items()):
         ctr["hash_seed_runs"] += 1
-        d = diff(base, sub_dump(src, hs))
+        d = diff(base, dmp)
         if d:
-            viols.append(("hash-seed", "PYTHONHASHSEED=%d vs 0: %s" % (hs, d)))
+            viols.append(("hash-seed", "fresh process with PYTHONHASHSEED=%s vs 0: %s" % (hs, d)))
             break
-    for sh in range(2 if tier == "quick" else 8):
-        ctr["callee_order_runs"] += 1
-        d = diff(base, sub_dump(src, 0, shuffle=sh))
-        if d:
-            viols.append(("callee-order", "callee enumeration order #%d vs natural: %s" % (sh, d)))
-            break
+    # callee enumeration orders: permuted in this process by wrapping Subroutine.called_subroutines
+    from tealer.teal.subroutine import Subroutine
+    orig_prop = Subroutine.called_subroutines
+    try:
+        for sh in range(5 if tier == "quick" else 16):
+            rnd = random.Random(sh)
+
+            def shuffled(self, _o=orig_prop.fget, _r=rnd, _rev=(sh == 0)):
+                l = sorted(_o(self), key=lambda x: x.name)
+                if _rev:
+                    l.reverse()
+                else:
+                    _r.shuffle(l)
+                return l
+
+            Subroutine.called_subroutines = property(shuffled)
+            ctr["callee_order_runs"] += 1
+            d = diff(base, dump.full(src))
+            if d:
+                viols.append(("callee-order", "callee enumeration order #%d vs natural: %s" % (sh, d)))
+                break
+    finally:
+        Subroutine.called_subroutines = orig_prop
     # history: analyse k other contracts first, in this process
     for k in (1, 3):
         for o in others[:k]:
@@ -130,13 +168,36 @@ def run_batch(spec):
     ctr = Ctr()
     out = {"violations": [], "nontrivial": [], "samples": [], "cases": 0, "inconclusive": 0, "notes": []}
     allv = []
+    progs = []
     for n in range(spec["n"]):
-        c = fragment.generate(rng, {"max_subs": 4, "max_stmts": 3, "recursion": rng.random() < 0.2})
+        w = rng.random()
+        if w < 0.5:
+            c = gen_call_lattice(rng)
+        elif w < 0.7:
+            c = fragment.generate(rng, {"max_subs": 5, "max_stmts": 3, "max_depth": 2, "loops": False, "switch": False,
+                                        "weights": {"call": 12, "ret": 4}})
+        else:
+            c = fragment.generate(rng, {"max_subs": 4, "max_stmts": 3, "recursion": rng.random() < 0.2})
         src, _ = T.render(c["prog"], c["version"])
-        others = [T.render(*[fragment.generate(rng, {"max_stmts": 2})[k] for k in ("prog", "version")])[0] for _ in range(3)]
+        progs.append((c, src))
+    srcs = [s_ for _c, s_ in progs]
+    seeds = [1, 2, 3] if spec["tier"] == "quick" else list(range(1, 24))
+    try:
+        # baselines: each program alone would cost one process each; instead the batch is analysed in one fresh
+        # process per hash seed, in forward order for seed 0 (baseline) and alternating orders for the others, so
+        # that every program is also seen after a different history
+        base_all = sub_dump_many(srcs, 0)
+        per_seed = {hs: sub_dump_many(srcs, hs, reverse=(hs % 2 == 1)) for hs in seeds}
+    except subprocess.TimeoutExpired:
+        out["inconclusive"] += len(progs)
+        out["counters"] = dict(ctr)
+        return out
+    for n, (c, src) in enumerate(progs):
+        others = [s_ for k, s_ in enumerate(srcs) if k != n][:3] or [src]
         viols = []
         try:
-            ok = one_program(src, others, rng, ctr, viols, spec["tier"])
+            ok = one_program(src, others, rng, ctr, viols, spec["tier"], base=base_all[n],
+                             seed_dumps={hs: per_seed[hs][n] for hs in seeds})
         except subprocess.TimeoutExpired:
             out["inconclusive"] += 1
             continue
